@@ -185,8 +185,10 @@ Print bad.
 '''
 
 
-def run_shards(module, case_terms, workdir, shard_size=300, max_bytes=250_000, timeout=600, imports=''):
+def run_shards(module, case_terms, workdir, shard_size=300, max_bytes=250_000, timeout=None, imports=''):
     """Evaluate `check` on every case inside Coq.  Returns list of (case index, [sub indices])."""
+    if timeout is None:
+        timeout = int(os.environ.get('VERIF_SHARD_TIMEOUT', '900'))
     short = module.split('.')[-1]
     shards, cur, cur_bytes, start = [], [], 0, 0
     for i, t in enumerate(case_terms):
